@@ -291,7 +291,11 @@ func (n *node) settle() {
 
 func (n *node) close() {
 	n.settle()
-	n.cs.BeforeStop()
+	// a verification that was started and never awaited (last block failed in execution) leaves goroutines parked on the
+	// verifier's channels; BeforeStop closes those channels under them. Such a node is abandoned instead of stopped.
+	if need, _ := chain.VerifC04VerifyState(n.cs); !need {
+		n.cs.BeforeStop()
+	}
 	os.RemoveAll(n.dir)
 }
 
@@ -862,7 +866,7 @@ func (s *session) opAdmit(m *mtx) {
 	best := s.bestBlk()
 	err := s.n.admit(m.tx)
 	out := s.admitClass(m.tx, err)
-	s.op(fmt.Sprintf("admit %d", m.tid), out, err == nil)
+	s.op(fmt.Sprintf("offer %d", m.tid), out, err == nil)
 	s.run.Count("admit=" + out)
 	if err == nil {
 		s.pooled[string(m.tx.Hash)] = m.tid
@@ -872,7 +876,10 @@ func (s *session) opAdmit(m *mtx) {
 
 // oracleAdmitted: a transaction the pool took must be authorised for the state the pool looks at.
 func (s *session) oracleAdmitted(tx *types.Tx, best *mblk, how string) {
-	root := best.blk.GetHeader().GetBlocksRootHash()
+	// the state the pool looks at: normally the best block's; after a reorganisation that failed half-way it is still
+	// the state of the last side-branch block that executed (the pool is only told about executed blocks) — C13/C07's
+	// business, not C04's: admission is judged against the pool's own view
+	root := s.n.mp.VerifC04StateRoot()
 	sdb := s.n.cs.SDB().OpenNewStateDB(root)
 	_, accept := s.n.mp.VerifC04ChainIdHashes()
 	if !bytes.Equal(tx.Body.ChainIdHash, accept) || !bytes.Equal(accept, s.cid) {
